@@ -1729,6 +1729,26 @@ func (db *DB) Dump(w io.Writer, tableNames ...string) error {
 	defer conn.Close()
 	ctx := context.Background()
 
+	// Every statement of the dump runs inside a single read transaction, so that
+	// all of them see the same committed state, no matter which writes take place
+	// while the dump is being generated. The transaction is ended before the
+	// connection goes back to the pool (deferred calls run in reverse order).
+	tx, err := conn.BeginTx(ctx, nil)
+	if err != nil {
+		return err
+	}
+	defer tx.Rollback()
+
+	// queryTx runs the statement of the request inside the transaction. A statement
+	// that fails makes the dump incomplete, so its error is returned.
+	queryTx := func(req *command.Request) ([]*command.QueryRows, error) {
+		rows, err := db.queryStmtWithConn(ctx, req.Statements[0], false, tx)
+		if err != nil {
+			return nil, err
+		}
+		return []*command.QueryRows{rows}, nil
+	}
+
 	// Convenience function to convert string query to protobuf.
 	commReq := func(query string) *command.Request {
 		return &command.Request{
@@ -1745,7 +1765,7 @@ func (db *DB) Dump(w io.Writer, tableNames ...string) error {
 	}
 
 	// Get the schema.
-	rows, err := db.queryWithConn(ctx, DumpTablesReq(tableNames...), false, conn)
+	rows, err := queryTx(DumpTablesReq(tableNames...))
 	if err != nil {
 		return err
 	}
@@ -1770,8 +1790,7 @@ func (db *DB) Dump(w io.Writer, tableNames ...string) error {
 		}
 
 		tableIndent := strings.Replace(table, `"`, `""`, -1)
-		r, err := db.queryWithConn(ctx, commReq(fmt.Sprintf(`PRAGMA table_info("%s")`, tableIndent)),
-			false, conn)
+		r, err := queryTx(commReq(fmt.Sprintf(`PRAGMA table_info("%s")`, tableIndent)))
 		if err != nil {
 			return err
 		}
@@ -1784,7 +1803,7 @@ func (db *DB) Dump(w io.Writer, tableNames ...string) error {
 			tableIndent,
 			strings.Join(columnNames, ","),
 			tableIndent)
-		r, err = db.queryWithConn(ctx, commReq(query), false, conn)
+		r, err = queryTx(commReq(query))
 
 		if err != nil {
 			return err
@@ -1800,7 +1819,7 @@ func (db *DB) Dump(w io.Writer, tableNames ...string) error {
 	// Do indexes, triggers, and views.
 	query := `SELECT "name", "type", "sql" FROM "sqlite_master"
 			  WHERE "sql" NOT NULL AND "type" IN ('index', 'trigger', 'view')`
-	rows, err = db.queryWithConn(ctx, commReq(query), false, conn)
+	rows, err = queryTx(commReq(query))
 	if err != nil {
 		return err
 	}
